@@ -19,7 +19,7 @@ func init() {
 	vx.Register(&vx.Prop{
 		ID:    "C06",
 		Level: "exploration",
-		Rule: "the in-domain File family of C05 (17 file types x every member x {no field, every single field x boundary values, all fields (two value sets), union-definition mixes}, both byte orders, headers with/without CRC), plus every ordered pair of fields per message in the thorough tier and local timestamps with a UTC reference at three zone offsets; each File is encoded and decoded back. " +
+		Rule: "the in-domain File family of C05 (17 file types x every member x {no field, every single field x boundary values, all fields (two value sets), union-definition mixes}, both byte orders, headers with/without CRC), plus every ordered pair of fields per message in the thorough tier local timestamps with a UTC reference at three zone offsets, and Files with every member populated at once; each File is encoded and decoded back. " +
 			"Oracle: decode succeeds, same file type, same per-member message counts and order, field-for-field equality with the property's relaxations (arrays up to trailing invalid padding, local timestamps by wall-clock reading, component destinations per the C18 reference expansion, unset = invalid). distinct = distinct encoded streams",
 		Assumptions: []string{"accumulated destinations (distance, total_cycles, accumulated_power) are excluded when their source is set: they are C18's listed findings"},
 		Run:         runC06,
@@ -237,6 +237,53 @@ func runC06(w *vx.W) {
 		for vi := 1; vi <= 3; vi++ {
 			for c := 0; c < 4; c++ {
 				handle(genSpec{Slot: gs, Msgs: [][]genFieldSet{{{tsSlot, 1}, {localSlot, vi}}}, HdrCRC: c&1 == 0, Big: c&2 != 0, Desc: fmt.Sprintf("timestamp + local timestamp value#%d", vi)}, "local-with-reference")
+			}
+		}
+	}
+	// Files with every member populated at once
+	for _, t := range fileTypes {
+		for variant := 0; variant < 4; variant++ {
+			for c := 0; c < 4; c++ {
+				k++
+				if !w.Mine(k) {
+					continue
+				}
+				f, exp := multiFile(byte(t.Type), variant, c&1 == 0)
+				if f == nil {
+					continue
+				}
+				out, eerr, pn := safeEncode(f, c&2 != 0)
+				if eerr != nil || pn != "" {
+					continue // C05's subject
+				}
+				res := safeDecode(bytes.NewReader(out))
+				w.Eval(1)
+				w.Fam("multi-member-files", 1)
+				w.Distinct(vx.HashB(out))
+				desc := fmt.Sprintf("%s file with every member populated (variant %d), big=%v hdrcrc=%v", t.Name, variant, c&2 != 0, c&1 == 0)
+				rep := map[string]interface{}{"file_type": t.Type, "variant": variant, "encoded_hex": vx.Hex(out)}
+				if res.Err != nil || res.Panic != "" {
+					w.Violation("decode", fmt.Sprintf("%s: Decode of Encode's output fails: %v %s", desc, res.Err, res.Panic), rep)
+					continue
+				}
+				for m, ms := range exp {
+					got := messagesOf(res.File, m)
+					if len(got) != len(ms) {
+						w.Violation("count", fmt.Sprintf("%s: %v: %d messages decoded, %d put in", desc, fit.MesgNum(m), len(got), len(ms)), rep)
+						break
+					}
+					bad := false
+					for i := range ms {
+						if msg := c06Compare(got[i], ms[i]); msg != "" {
+							w.Violation("value", fmt.Sprintf("%s: %v #%d: %s", desc, fit.MesgNum(m), i, msg), rep)
+							bad = true
+							break
+						}
+					}
+					if bad {
+						break
+					}
+				}
 			}
 		}
 	}
